@@ -165,15 +165,24 @@ let run_ttlspec parts =
   | _ -> "spec=ok"
 
 (* ---------- kind: cachehist ---------- *)
-type hop = { hk : char; hat : int; hkey : int; hrcode : int; htc : bool; httls : int64 list }
+(* round 2: op  a.<at ms>.<key>.<age ms>.<remain ms>.<nx>.<ttl_ttl|x>  = MemoryCache.Store called directly at +at with
+   storedTime = now - age and expireTime = now + remain (the promotion of a redis hit; hook StoreAt) *)
+type hop = { hk : char; hat : int; hkey : int; hrcode : int; htc : bool; httls : int64 list;
+             hage : int; hremain : int; hnx : bool }
 
 let parse_ops (s : string) : hop list =
   List.map (fun tok ->
       match String.split_on_char '.' tok with
-      | [k; at; key] -> { hk = k.[0]; hat = int_of_string at; hkey = int_of_string key; hrcode = 0; htc = false; httls = [] }
+      | [k; at; key] -> { hk = k.[0]; hat = int_of_string at; hkey = int_of_string key; hrcode = 0; htc = false; httls = [];
+                          hage = 0; hremain = 0; hnx = false }
       | [k; at; key; rc; tc; ttls] ->
         { hk = k.[0]; hat = int_of_string at; hkey = int_of_string key; hrcode = int_of_string rc; htc = (tc = "1");
-          httls = if ttls = "x" then [] else List.map Int64.of_string (String.split_on_char '_' ttls) }
+          httls = (if ttls = "x" then [] else List.map Int64.of_string (String.split_on_char '_' ttls));
+          hage = 0; hremain = 0; hnx = false }
+      | [k; at; key; age; remain; nx; ttls] ->
+        { hk = k.[0]; hat = int_of_string at; hkey = int_of_string key; hrcode = 0; htc = false;
+          httls = (if ttls = "x" then [] else List.map Int64.of_string (String.split_on_char '_' ttls));
+          hage = int_of_string age; hremain = int_of_string remain; hnx = (nx = "1") }
       | _ -> failwith ("bad op " ^ tok)) (String.split_on_char ',' s)
 
 (* One cp_run of the model on the scheduled history: otter's ticker has phase [phase_ms] (ticks at T0 - 1 s + phase + k s),
@@ -192,6 +201,11 @@ let hist_run (mx : z) (ops : hop list) (phase_ms : int) (collect : int) : string
          incr si;
          let resp = if op.hk = 'n' then None else Some (c08_msg (i + 1) op.hrcode op.htc op.httls) in
          evs := EvStore (t, z_of_int 1000, k, resp, true) :: !evs; what := `Store op.hk :: !what
+       | 'a' ->
+         if (collect lsr !si) land 1 = 1 then begin evs := EvCollect k :: !evs; what := `Skip :: !what end;
+         incr si;
+         let stored = z_ns_of_ms (t0_ms + op.hat - op.hage) and expire = z_ns_of_ms (t0_ms + op.hat + op.hremain) in
+         evs := EvStoreAt (t, stored, expire, k, c08_msg (i + 1) 0 false op.httls, op.hnx) :: !evs; what := `Store 'a' :: !what
        | _ -> evs := EvGet (t, k) :: !evs; what := `Get :: !what)) ops;
   let (_, outs) = cp_run mx (init_state (n_of_int 990)) (List.rev !evs) in
   List.concat (List.map2 (fun w o ->
@@ -292,4 +306,5 @@ let () =
   register "policyspec" run_policyspec;
   register "ttl" run_ttl;
   register "ttlspec" run_ttlspec;
-  register "cachehist" run_cachehist
+  register "cachehist" run_cachehist;
+  register "storeat" run_cachehist
